@@ -20,18 +20,20 @@ def main():
             c._foreign = True
             reg.add(c)
     ctx = Ctx(facts, reg)
-    reps = []
-    for c in reg.contracts:
-        if (flt and flt not in c.ident) or c.interface or getattr(c, "_foreign", False):
-            continue
-        t1 = time.time()
-        rep = verify_contract(ctx, c)
-        print(f"[{c.ident}] status={rep.status} {rep.reason} paths={rep.paths} obligations={len(rep.obligations)} gen={time.time()-t1:.2f}s outcomes={dict((x, rep.path_outcomes.count(x)) for x in set(rep.path_outcomes))}")
-        reps.append(rep)
+    from .parallel import verify_parallel
+    own = [c for c in reg.contracts if not ((flt and flt not in c.ident) or c.interface or getattr(c, "_foreign", False))]
+    t1 = time.time()
+    reps = verify_parallel(ctx, own)
+    for rep in reps:
+        c = rep.contract
+        print(f"[{c.ident}] status={rep.status} {rep.reason[:600]} paths={rep.paths} obligations={len(rep.obligations)} outcomes={dict((x, rep.path_outcomes.count(x)) for x in set(rep.path_outcomes))}")
+    print(f"verify_parallel {time.time()-t1:.1f}s")
+    lem = []
     if hasattr(mod, "lemmas") and not flt:
         for l in mod.lemmas():
-            reps.append(verify_lemma(ctx, l))
-    discharge_reports(reps, timeout_ms=20000)
+            lem.append(verify_lemma(ctx, l))
+    discharge_reports(lem, timeout_ms=20000)
+    reps = reps + lem
     bad = 0
     for rep in reps:
         agg = {}
